@@ -355,7 +355,7 @@ func checkC03(c *Ctx) {
 	}
 	c.Floor("C03.R5", "sweep_constructs", nSweep, 3)
 	// memory: lease under mutex is C02.R5; restate for the Dequeue method
-	lm := p.lockAnalysis("queue", "MemoryStore", "mu")
+	lm := p.lockAnalysis("queue", "MemoryStore", p.mutexField("queue", "MemoryStore"))
 	okLock := true
 	n := 0
 	for _, a := range lm.Accesses {
